@@ -22,7 +22,7 @@ ASSUMPTIONS = ["bit-identity for row perturbation; for permutation / sub-batch r
                "1e-13 relative tolerance is allowed (BLAS may block by row position / batch size); the element-wise "
                "SDE family is compared bitwise there too"]
 REQUIRED_COUNTERS = ["perturb_rows_checked", "permute_runs", "subbatch_runs", "bm_element_checks", "bm_A_checks",
-                     "elementwise_bitwise_runs"]
+                     "elementwise_bitwise_runs", "bm_large_batch"]
 THRESHOLDS = {"matmul_rel": 1e-13}
 
 
@@ -151,7 +151,9 @@ def run_bm(case):
     from .. import bmgen
     rng = random.Random(case["rseed"])
     viol, cnt = [], {}
-    shape = rng.choice([[3], [2, 3], [4, 2], [2, 2, 2], [5, 1]])
+    # (large batches too: shortcuts keyed on the batch size, e.g. shared noise rows for "big" samples, only show there)
+    shape = rng.choice([[3], [2, 3], [4, 2], [2, 2, 2], [5, 1], [2, 3, 3], [64, 3], [257, 1], [100, 2]])
+    cnt["bm_large_batch"] = int(shape[0] >= 64)
     levy = rng.choice(bmgen.LEVY)
     cfg = {"wrapper": "interval", "shape": shape, "levy": levy, "dtype": "f64", "entropy": rng.randrange(1, 10 ** 9),
            "t0": 0.0, "t1": 1.0, "halfway": rng.random() < 0.2, "cache": rng.choice([0, 1, 5, 45, None]),
